@@ -28,7 +28,7 @@ REAL_VS_STUB = {"real": ["incomplete_cooperative.game", "bounds", "coalitions", 
                 "stub": [], "seams": ["sys.settrace interrupt injector", "functools cache eviction"]}
 ASSUMPTIONS = ["interrupts land between Python lines of package code, not inside numpy calls",
                "bounds are only compared after a completed compute at K containing the minimal information"]
-PROBES = ["large_n", "oracle_computed_in_a_fresh_process", "same_unknown_ids_at_another_size", "torn_then_recomputed", "two_histories_same_K", "unstep_after_2_steps", "scribble_then_compute",
+PROBES = ["computes_interleaved_in_two_threads", "large_n", "oracle_computed_in_a_fresh_process", "same_unknown_ids_at_another_size", "torn_then_recomputed", "two_histories_same_K", "unstep_after_2_steps", "scribble_then_compute",
           "evict_then_compute"]
 TIERS = {
     "quick": {"runs": 60000, "wall": 40, "batch": 32, "shrink_s": 40},
@@ -90,6 +90,20 @@ def run_object(sim: Sim) -> None:
     for _ in range(steps):
         if sim.flip(1, 16, "other-use"):
             prelude.warm_process(sim, label="midrun")
+        if h.has_minimal() and n <= 5 and sim.flip(1, 14, "threads"):
+            # another thread of the process recomputes a different game object with the same computer meanwhile
+            from .. import simthreads
+            n2 = sim.pick([n, max(3, n - 1), min(5, n + 1)], "sibling-n")
+            v2, _ = games.draw_game(sim, n2, cls)
+            h2 = gm.GameHarness(sim, n2, comp_name, v2, tag="sibling")
+            with sim.guard("C08.operation_raised"):
+                h2.reset_minimal(sim.subset(h2.explorable, "sibling-extra", 1, 4))
+                sim.op("concurrent-computes", n, n2)
+                simthreads.interleave(sim, [h.g.compute_bounds, h2.g.compute_bounds])
+                h.dirty = h2.dirty = False
+            sim.probe("computes_interleaved_in_two_threads")
+            compare_fresh(sim, h, "C08.history_differs_from_fresh_object")
+            compare_fresh(sim, h2, "C08.history_differs_from_fresh_object")
         with sim.guard("C08.operation_raised"):
             was_torn = h.torn
             ops_before = dict(sim.ops)
